@@ -92,6 +92,7 @@ func checkC01(r *Run) propMeta {
 	checkPartStateConsumed(r, tp)
 	checkAggregateDistinct(r, tp, pg)
 	checkDecoderScratchFresh(r, r.MustPkg("drivers/pg"))
+	checkFloatBitSize(r, "C01-R12-float-bit-size", r.MustPkg("cypher/models/pgsql/format"), r.MustPkg("cypher/models/pgsql"), r.MustPkg("cypher/models/pgsql/translate"))
 	r.Floor("C01-R9-part-state-consumed", 6)
 	r.Floor("C01-R1-formatter-completeness", 60)
 	r.Floor("C01-R2-translator-consumption", 60)
